@@ -1156,9 +1156,15 @@ var tlbExec = map[string]h.ExecFn{
 	"go.tlb.flagsreal": goTLBFlagsReal,
 	"go.tlb.covseeds":  goTLBCovSeeds,
 	// modelled custom decoders (compared with lean/TongoModel/TlbRead.lean)
-	"tlb.label":      exTLBLabel,
-	"tlb.countleafs": exTLBCountLeafs,
-	"tlb.snake":      exTLBSnake,
-	"tlb.bintree":    exTLBBinTree,
-	"tlb.hashmap":    exTLBHashmap,
+	"tlb.label":         exTLBLabel,
+	"tlb.countleafs":    exTLBCountLeafs,
+	"tlb.snake":         exTLBSnake,
+	"tlb.bintree":       exTLBBinTree,
+	"tlb.alloc.stack":   exAllocStack,
+	"tlb.alloc.bintree": exAllocBinTree,
+	"tlb.alloc.snake":   exAllocSnake,
+	"tlb.alloc.deep":    exAllocDeep,
+	"go.abi.stackval":   goABIStackVal,
+	"go.tlb.kat":        goTLBKat,
+	"tlb.hashmap":       exTLBHashmap,
 }
